@@ -663,8 +663,15 @@ func c11BuilderParts(env *mc.Env) []c11BPart {
 			evp: []*string{nil, c11Str("-1"), c11Str("x")}, sub: []*string{nil, c11Str("1"), c11Str("9")},
 			usage: []int64{-1, 0, 3}, req: []int64{0, 2}, inactive: []bool{false}}
 	}
+	// values at the ends of the int32 range: differences between two keys do not fit into 32 bits
+	orderExtreme := func(f string) *c11Alpha {
+		return &c11Alpha{qos: []string{"BE"}, prio: []*int32{batch, c11I32(-2000000000), c11I32(1000000000)}, enabled: []bool{true}, policy: un,
+			evp: []*string{nil, c11Str("2147483647"), c11Str("-2147483648"), c11Str("-100")}, sub: un,
+			usage: []int64{1, 3}, req: []int64{1}, inactive: []bool{false}}
+	}
 	ths := []int32{5999, 7999, 9999}
 	parts := []c11BPart{
+		{"order-extreme-n2", 2, orderExtreme, []int32{2147483647}},
 		{"elig-n1", 1, eligFull, ths},
 		{"order-n2", 2, orderQuick, []int32{7999}},
 		{"elig-n2", 2, eligSmall, ths},
